@@ -216,6 +216,8 @@ def weave_fn(item_text, fnpath, sections, origin_file, origin_line):
             ins.append(Insertion(toks[body_open].start, "\n" + s.body + "\n", (s.file, s.line)))
         elif s.kind == "attr":
             ins.append(Insertion(0, s.body + "\n", (s.file, s.line)))
+        elif s.kind == "fnstart":
+            ins.append(Insertion(toks[body_open].end, "\n" + s.body + "\n", (s.file, s.line)))
         elif s.kind == "fnend":
             # proof hint placed as the last statement of the function body; only sound to use when the body ends
             # with a statement (unit return), otherwise the weave would not compile
